@@ -892,7 +892,7 @@ class LocalCapture(threading.Thread):
 
     def __init__(self, path, capdir):
         super().__init__(daemon=True)
-        self.path, self.capdir, self.stop, self.seen = path, capdir, False, {}
+        self.path, self.capdir, self.stop, self.seen, self.count = path, capdir, False, {}, 0
         os.makedirs(capdir, exist_ok=True)
 
     def run(self):
@@ -903,12 +903,20 @@ class LocalCapture(threading.Thread):
                         try:
                             if not e.is_file(follow_symlinks=False):      # .channel is a FIFO
                                 continue
-                            key = (e.name, e.inode())
-                            if key not in self.seen:
-                                dst = os.path.join(self.capdir, "%d" % key[1])
-                                if not os.path.exists(dst):
-                                    os.link(e.path, dst)
-                                self.seen[key] = dst
+                            # the inode number comes from lstat(), not from the directory entry (readdir's d_ino is not
+                            # reliable on every file system: on this sandbox's overlay two files were seen with one
+                            # d_ino), and an existing link is trusted only if it IS the same file
+                            st = os.lstat(e.path)
+                            key = (e.name, st.st_dev, st.st_ino)
+                            old = self.seen.get(key)
+                            if old is None or not os.path.samestat(os.lstat(old), st):
+                                self.count += 1
+                                dst = os.path.join(self.capdir, "%d" % self.count)
+                                os.link(e.path, dst)
+                                if os.path.samestat(os.lstat(dst), st):
+                                    self.seen[key if old is None else key + (self.count,)] = dst
+                                else:
+                                    os.unlink(dst)      # the name was replaced in between: next poll
                         except OSError:
                             pass
             except OSError:
@@ -918,7 +926,8 @@ class LocalCapture(threading.Thread):
     def versions(self):
         """file name -> list of contents seen under that name (or under NAME.tmp, which rename() makes NAME)"""
         out = {}
-        for (name, ino), dst in self.seen.items():
+        for key, dst in self.seen.items():
+            name = key[0]
             n = name[:-4] if name.endswith(".tmp") else name
             try:
                 out.setdefault(n, []).append(open(dst, "rb").read())
@@ -1128,7 +1137,7 @@ def e2e_round(ctx, objdir, progs, rnd, spec):
     for i, c in enumerate(caps):
         c.join(timeout=2)
         rdir = os.path.join(root, "srv", "net%d.data" % i)
-        cap, rcv = {}, {}
+        cap, rcv, details = {}, {}, {}
         for n, vers in c.versions().items():
             if n == "default.opts" or n == ".channel" or n.endswith(".dat"):
                 continue
@@ -1136,12 +1145,17 @@ def e2e_round(ctx, objdir, progs, rnd, spec):
             if n.endswith(".map") and len(vers) < 2:
                 continue      # maps are rewritten through NAME.tmp + rename(): with one version seen we may hold the old one
             pick = got if got in vers else vers[-1]
+            if got is not None and got not in vers:
+                k = next((j for j in range(min(len(pick), len(got))) if pick[j] != got[j]), min(len(pick), len(got)))
+                details[n] = {"versions_seen": [len(v) for v in vers], "received_len": len(got), "first_difference_at": k,
+                              "captured_there": pick[max(0, k - 40):k + 80].decode(errors="replace"),
+                              "received_there": got[max(0, k - 40):k + 80].decode(errors="replace")}
             cap[n.encode()] = pick
             if got is not None:
                 rcv[n.encode()] = got
         ctx.tag("e2e:same-run-metadata-files-captured", len(cap))
         same_run.append((digest_dir(cap), digest_dir(rcv), {"round": rnd, "client": i, "spec": spec, "variant": runs[i][3],
-                                                            "captured": sorted(x.decode() for x in cap),
+                                                            "captured": sorted(x.decode() for x in cap), "details": details,
                                                             "received": sorted(x.decode() for x in rcv)}))
     bad = evaluate_sub(ctx, [(a, b) for a, b, _ in same_run], "e2e_same_run%d" % rnd)
     for i in (bad or [])[:2]:
